@@ -92,7 +92,22 @@ end
 
 -- Tries to look up a module loaded by require() from the cache.  This is
 -- also called from _lua_invoke().
+-- Host libraries stay in the host's package.loaded (see retained_modules);
+-- sandboxed code must never obtain them through require()
+local host_only_modules = {
+    io = true,
+    os = true,
+    package = true,
+    python = true,
+    debug = true,
+    _G = true,
+    _sandbox_phase1 = true,
+}
+
 function _cached_mod(modname)
+    if host_only_modules[modname] then
+        return nil
+    end
     if _orig_package.loaded[modname] then
         return _orig_package.loaded[modname]
     end
